@@ -22,7 +22,7 @@ def handleVolTree (args : List String) : String :=
     let volFrustum : Int × Int → Float := fun f => nth fr f.2
     let volSF : Int → Int × Int → Float := fun s f => if s = f.1 then nth pc f.2 else nth cc f.2
     let volPairs : Int → List (Int × Int) → Float := fun _ _ => 0.0
-    match get_volume_frustum_cone volSphere volFrustum volSF volPairs nan (2 * ids.length + 3) ids pids acc with
+    match get_volume_frustum_cone volSphere volFrustum volSF volPairs (fun _ => nan) (2 * ids.length + 3) ids pids acc with
     | none => "E"
     | some v => Proto.showFloat v
   | _, _, _, _, _, _, _ => "bad-args"
